@@ -895,6 +895,13 @@ void mmd_assign_line_type(mmd_engine * e, token * line) {
 			walker = walker->next;
 		}
 	}
+
+	if (((line->type == LINE_LIST_BULLETED) || (line->type == LINE_LIST_ENUMERATED)) &&
+			(first_child != line->child)) {
+		// A list marker may be indented by up to three spaces -- that space
+		// is neither the marker nor part of the item's text
+		token_remove_first_child(line);
+	}
 }
 
 
